@@ -30,7 +30,7 @@ try:
             pkgdir = os.path.dirname(pkgdir)
         if not os.path.isdir(os.path.join(wt, pkgdir)):
             pkgdir = os.path.dirname(pkgdir)
-        m2 = re.search(r"-run '([^']+)'", text[:2500])
+        m2 = re.search(r"-run '([^']+)'", text[:2500]) or re.search(r"-run (Test\w+)", text[:2500])
         runpat = m2.group(1) if m2 else "Demo"
         dst = os.path.join(wt, pkgdir, "zz_seed_demo_test.go")
         democmd = "go test -vet=off -count=1 -run '%s' ./%s/" % (runpat, pkgdir)
